@@ -763,6 +763,10 @@ class HTTPConnectionPool(ConnectionPool, RequestMethods):
         # for future rewinds in the event of a redirect/retry.
         body_pos = set_file_position(body, body_pos)
 
+        # Once the CONNECT tunnel of this attempt is up, an error is not a
+        # failure to reach the proxy any more.
+        tunnel_established = False
+
         try:
             # Request a connection from the queue.
             timeout_obj = self._get_timeout(timeout)
@@ -779,6 +783,8 @@ class HTTPConnectionPool(ConnectionPool, RequestMethods):
                         err=e, url=self.proxy.url, timeout_value=conn.timeout
                     )
                     raise
+
+            tunnel_established = http_tunnel_required
 
             # If we're going to release the connection in ``finally:``, then
             # the response doesn't need to know about the connection. Otherwise
@@ -836,7 +842,12 @@ class HTTPConnectionPool(ConnectionPool, RequestMethods):
                     SSLError,
                     HTTPException,
                 ),
-            ) and (conn and conn.proxy and not conn.has_connected_to_proxy):
+            ) and (
+                conn
+                and conn.proxy
+                and not conn.has_connected_to_proxy
+                and not tunnel_established
+            ):
                 new_e = _wrap_proxy_error(new_e, conn.proxy.scheme)
             elif isinstance(new_e, (OSError, HTTPException)):
                 new_e = ProtocolError("Connection aborted.", new_e)
